@@ -4,6 +4,7 @@
 -/
 import Proofs.C06_System
 import Proofs.C06_Refine
+import Proofs.C06_Write
 
 namespace Atomman.C06
 set_option linter.unusedSimpArgs false
@@ -95,5 +96,12 @@ theorem guard_fires (cells : List Cell) (hnum : ∀ c ∈ cells, (c.num?).isSome
     have := listMin_le nums m hm q hq'
     grind
 
+
+theorem propGet_none_eq (o : Nat) (key : String) (s : State) (a : Arr) (h : (s.obj o).find key = some a) :
+    propGet o key none s = (.ok (arrVal s a), s) := by
+  apply eq_of_post
+  unfold propGet
+  rw [post_bind_getS, post_bind_keyErr, h]
+  exact ⟨rfl, rfl⟩
 
 end Atomman.C06
